@@ -42,16 +42,26 @@ pub fn perm_from_keys(keys: &[u16], n: usize) -> Vec<usize> {
 pub fn iter_laws<I, T>(mk: impl Fn() -> I, cap: usize) -> Result<Vec<T>, String>
 where
     I: Iterator<Item = T>,
-    T: PartialEq + std::fmt::Debug,
+    T: PartialEq + std::fmt::Debug + Clone,
 {
-    let mut reference: Vec<T> = Vec::new();
+    iter_laws_by(mk, cap, |x: &T| x.clone())
+}
+
+/// `iter_laws` for items that are compared through a key (edge references are neither
+/// `PartialEq` nor `Debug` in general).
+pub fn iter_laws_by<I, T, K>(mk: impl Fn() -> I, cap: usize, key: impl Fn(&T) -> K) -> Result<Vec<K>, String>
+where
+    I: Iterator<Item = T>,
+    K: PartialEq + std::fmt::Debug,
+{
+    let mut reference: Vec<K> = Vec::new();
     {
         let mut it = mk();
         loop {
             let (lo, hi) = it.size_hint();
             match it.next() {
                 Some(x) => {
-                    reference.push(x);
+                    reference.push(key(&x));
                     if reference.len() > cap {
                         return Err(format!("more than {cap} items"));
                     }
@@ -59,7 +69,6 @@ where
                     if hi == Some(0) {
                         return Err(format!("size_hint upper bound 0 before item {} was yielded", reference.len() - 1));
                     }
-                    let _ = lo;
                 }
                 None => {
                     if lo != 0 {
@@ -92,18 +101,18 @@ where
     if c != n {
         return Err(format!("count() = {c}, a next() loop yields {n} items"));
     }
-    let l = mk().last();
+    let l = mk().last().map(|x| key(&x));
     if l.as_ref() != reference.last() {
         return Err(format!("last() = {l:?}, expected {:?}", reference.last()));
     }
     for k in [0usize, 1, n / 2, n.saturating_sub(1), n, n + 3] {
         let mut it = mk();
-        let got = it.nth(k);
+        let got = it.nth(k).map(|x| key(&x));
         if got.as_ref() != reference.get(k) {
             return Err(format!("nth({k}) = {got:?}, expected {:?}", reference.get(k)));
         }
         // nth consumes k+1 items: the rest follows
-        let rest: Vec<T> = it.take(cap).collect();
+        let rest: Vec<K> = it.take(cap).map(|x| key(&x)).collect();
         let want = if k + 1 <= n { &reference[k + 1..] } else { &reference[n..] };
         if rest != want {
             return Err(format!("after nth({k}) the iterator yields {rest:?}, expected {want:?}"));
